@@ -105,6 +105,14 @@ int event_pending(const struct event *ev, short what, struct timeval *tv)
 	if (ev->ev_flags & EVLIST_TIMEOUT) flags |= EV_TIMEOUT;
 	return flags & what & (EV_TIMEOUT | EV_READ | EV_WRITE | EV_CLOSED | EV_SIGNAL);
 }
+/* event_active(): the callback will run from the loop even though the condition was not reported by the back end */
+void event_active(struct event *ev, int res, short ncalls)
+{
+	(void)ncalls;
+	VP_ASSERT(ev->ev_flags & EVLIST_INIT, "event contract: event_active on an event that was never assigned");
+	ev->ev_flags |= EVLIST_ACTIVE; ev->ev_res = (short)res;
+}
+static int vp_ev_active(const struct event *ev) { return (ev->ev_flags & EVLIST_ACTIVE) != 0; }
 int event_initialized(const struct event *ev) { return (ev->ev_flags & EVLIST_INIT) != 0; }
 evutil_socket_t event_get_fd(const struct event *ev) { return ev->ev_fd; }
 int event_get_priority(const struct event *ev) { return ev->ev_pri; }
